@@ -88,7 +88,10 @@ def build_props(prop, timeout=1500):
     vfile = os.path.join(COQ, "Props", prop + ".v")
     src, names, printed = theorem_names(vfile)
     res["theorems"] = names
-    rc, out = sh(["make", "-j%d" % NPROC, "Props/%s.vo" % prop], timeout, cwd=COQ)
+    targets = ["Props/%s.vo" % prop]
+    if os.path.exists(os.path.join(COQ, "Harness", "H%s.v" % prop[1:])):
+        targets.append("Harness/H%s.vo" % prop[1:])
+    rc, out = sh(["make", "-j%d" % NPROC] + targets, timeout, cwd=COQ)
     res["log"] = out[-6000:]
     if rc != 0:
         res["broken"] = locate_failure(out, names, src)
